@@ -1,1 +1,85 @@
-fn main() { acpiv::hello(); }
+use acpiv::engine::*;
+use std::path::PathBuf;
+
+fn root() -> PathBuf {
+    std::env::var("ACPIV_ROOT").map(PathBuf::from).unwrap_or_else(|_| {
+        let p = PathBuf::from(env!("CARGO_MANIFEST_DIR"));
+        p.parent().unwrap().to_path_buf()
+    })
+}
+
+fn seed() -> u64 {
+    std::env::var("VERIF_SEED").ok().and_then(|s| s.trim().parse::<u64>().ok()).unwrap_or(20261002)
+}
+
+fn replay_file(path: &str, quiet: bool) -> (String, Vec<Violation>) {
+    let txt = std::fs::read_to_string(path).unwrap_or_else(|e| {
+        eprintln!("cannot read {}: {}", path, e);
+        std::process::exit(2)
+    });
+    let v: serde_json::Value = serde_json::from_str(&txt).expect("replay file must be JSON");
+    let prop = v["property"].as_str().unwrap_or("").to_string();
+    let check = v["check"].as_str().unwrap_or("").to_string();
+    if !quiet {
+        println!("replaying {} check={} (build profile {})", prop, check, build_profile());
+    }
+    match acpiv::props::replay(&prop, &check, &v["replay"]) {
+        Some(vs) => (prop, vs),
+        None => {
+            eprintln!("no replay handler for {} {}", prop, check);
+            std::process::exit(2)
+        }
+    }
+}
+
+fn main() {
+    let args: Vec<String> = std::env::args().collect();
+    if args.len() >= 3 && args[1] == "replay" {
+        let (prop, vs) = replay_file(&args[2], false);
+        let vs: Vec<_> = vs.into_iter().filter(|v| !v.is_harness_error()).collect();
+        for v in &vs {
+            println!("VIOLATION property={} replay={}", prop, args[2]);
+            println!("  {} | {} | {} | {}", v.subject, v.kind, v.detail, v.info);
+        }
+        if vs.is_empty() {
+            println!("replay: no violation");
+        }
+        std::process::exit(if vs.is_empty() { 0 } else { 1 });
+    }
+    if args.len() >= 4 && args[1] == "check" {
+        let tier = if args[3] == "thorough" { Tier::Thorough } else { Tier::Quick };
+        let ctx = Ctx::new(&args[2], tier, seed(), root());
+        silence_panics();
+        // regression tier: committed reproducers of this property are replayed first
+        let dir = ctx.root.join("replays").join(&args[2]);
+        if let Ok(rd) = std::fs::read_dir(&dir) {
+            let mut files: Vec<_> = rd.flatten().map(|e| e.path()).filter(|p| p.extension().map_or(false, |x| x == "json")).collect();
+            files.sort();
+            for f in files {
+                let (_, vs) = replay_file(f.to_str().unwrap(), true);
+                ctx.add_evals(1);
+                ctx.add_engine("replayed-regressions", 1);
+                let mut unknown = Vec::new();
+                for v in vs {
+                    unknown.push(v);
+                }
+                if !unknown.is_empty() {
+                    // report with the committed file as the replay path
+                    let txt = std::fs::read_to_string(&f).unwrap();
+                    let doc: serde_json::Value = serde_json::from_str(&txt).unwrap();
+                    ctx.report(doc["check"].as_str().unwrap_or("regression"), doc["replay"].clone(), unknown);
+                }
+            }
+        }
+        if !acpiv::props::run(&ctx) {
+            eprintln!("unknown property {}", args[2]);
+            std::process::exit(2);
+        }
+        if std::env::var("ACPIV_CHILD").is_ok() {
+            println!("CHILD-SUMMARY {}", ctx.child_summary());
+        }
+        std::process::exit(ctx.finish());
+    }
+    eprintln!("usage: acpiv check <Cxx> <quick|thorough> | acpiv replay <file>");
+    std::process::exit(2);
+}
